@@ -83,6 +83,14 @@ def run(chk):
                     chk.violation(f'{cls}:result layout', {'property': 'C03', 'ps': ps, 'shape': got.shape}, f'{cls}: shape {got.shape}')
                     continue
                 check_entry(chk, 'Pearson coefficient', cls, prec, got[0, 0], want, mag, {'ps': ps, 'trace_dtype': dt, 'data_dtype': ddt, 'key': i, 'split': (i // 2) % 3})
+            if i % 8 == 1:
+                # byte-typed traces AND data near the top of their range, presented 401 times in one batch (cross sums beyond 2^24): Pearson is
+                # invariant under both shifts and under replication; float64 is asked to be float64 whatever the input types
+                t3 = np.tile((np.array([[p[0]] for p in ps], dtype='int64') + 250).astype('uint8'), (401, 1))
+                d3 = np.tile((np.array([[p[1]] for p in ps], dtype='int64') + 250).astype('uint8'), (401, 1))
+                want3, mag3 = st.pearson_expect(e['cert'], [(p[0] + 250, p[1] + 250) for p in ps])
+                got = run_obj(cls, 'float64', t3, d3)
+                check_entry(chk, 'Pearson coefficient (bytes near 255, 401 repetitions)', cls, 'float64', got[0, 0], want3, mag3, {'ps': ps, 'trace_dtype': 'uint8', 'offset': 250, 'data_offset': 250, 'repeated': 401, 'data_dtype': 'uint8', 'key': ('hi8', i)})
             if i % 4 == 0:
                 # the same observations riding on a large offset with a small swing (ADC codes around 12000): Pearson is shift-invariant; in
                 # float64 every sum is still an exact integer, so the definition is reached to the stated envelope (float32 is not asked: its
@@ -156,6 +164,8 @@ def layouts(chk):
         dt, sh, sc = PRES[ci % len(PRES)]
         t = ((np.array([r['t'] for r in rows], dtype='float64') + sh) * sc).astype(dt)
         d = np.array([r['d'] for r in rows], dtype=ddts[ci]).reshape((len(rows),) + tuple(c['wshape']))
+        if ci % 2:         # the same values in Fortran order (transposed views, fancy-indexed selections): the layout is a function of the values' positions, not of the memory order
+            d, t = np.asfortranarray(d), np.asfortranarray(t)
         classes = ['CPADistinguisher', 'CPAAlternativeDistinguisher'] if c['kind'] == 'cpa' else ['DPADistinguisher']
         for cls in classes:
             for prec in ('float32', 'float64'):
@@ -185,7 +195,7 @@ def replay(chk, path):
     if 'ps' in rp:
         ps = rp['ps']
         t = np.tile((np.array([[p[0]] for p in ps]) + rp.get('offset', 0)).astype(rp.get('trace_dtype', 'int16')), (rp.get('repeated', 1), 1))
-        d = np.tile(np.array([[p[1]] for p in ps]).astype('uint8'), (rp.get('repeated', 1), 1))
+        d = np.tile((np.array([[p[1]] for p in ps]) + rp.get('data_offset', 0)).astype('uint8'), (rp.get('repeated', 1), 1))
     else:
         c, rows = rp['case']['c'], rp['case']['rows']
         t = np.array([r['t'] for r in rows]).astype('int16')
